@@ -15,7 +15,7 @@ VARIABLES l, bad
 Init == l = 1 /\ bad = <<>>
 Next == /\ l <= Len(Recs) /\ l' = l + 1
         /\ LET r == Recs[l] exp == Render(r.in) IN
-           bad' = IF exp = r.out THEN bad ELSE Append(bad, [line |-> l, exp |-> exp])
+           bad' = IF r.panic = "" /\ exp = r.out THEN bad ELSE Append(bad, [line |-> l, exp |-> exp])
 Spec == Init /\ [][Next]_<<l, bad>>
 
 Done == (l = Len(Recs) + 1) =>
